@@ -14,6 +14,7 @@ RULE = ("kinds: sequence (random operation sequence over {integrate(), integrate
         "with private copies after every operation), split (span cut into 2..5 calls vs one call), noop (call at the target changes nothing); "
         "non-trivial = sequence contains a reset followed by an integration; distinct by operation-shape signature")
 ASSUMPTIONS = ["persistent settings across reset(): method, rtol, atol, tf, kick mask, constants; dt returns to the constructor's dt with the sign of (tf - t0)"]
+RULE += " Strata added in the fourth seeding round: Systems whose method was assigned several times compared bit-for-bit with a fresh system holding the last method, before and after reset()."
 FLOORS = {"quick": {"sequences": 100, "resets_checked": 100, "twin_comparisons": 100, "reset_after_event": 15, "reset_after_fault": 15, "reset_after_method_change": 15,
                     "split_pairs": 30, "noop_calls": 30, "call_start_step_replay_steps": 300, "call_start_slope_checks": 100, "faults_inside_a_retry": 8, "cross_process_comparisons": 10, "near_target_noop_calls": 80, "settings_order_pairs": 25, "reassignment_comparisons": 30},
           "thorough": {"sequences": 1000, "resets_checked": 1000, "twin_comparisons": 1000, "reset_after_event": 150, "reset_after_fault": 150,
